@@ -32,6 +32,9 @@ func main() {
 	verbose := flag.Bool("v", false, "print every obligation")
 	list := flag.Bool("list", false, "list implemented properties")
 	warm := flag.Bool("warm", false, "load the repository once (warms the build cache) and exit")
+	inl := flag.Int("inline", -1, "analyse only this inlining normal form (0..3); default: 0, then 1..3 if an obligation is not discharged")
+	wstems := flag.Bool("write-stems", false, "with -property all on the blessed tree: regenerate <verif>/reference_stems.json")
+	inlOnly := flag.String("inline-only", "", "with -inline N: inline only these helpers (comma-separated pkg:func names, substring match)")
 	flag.Parse()
 
 	start := time.Now()
@@ -88,6 +91,15 @@ func main() {
 		return
 	}
 	if *dump != "" {
+		if *inl > 0 {
+			q, err := progAt(p, *inl)
+			if err != nil {
+				fmt.Fprintln(os.Stderr, "inline:", err)
+				os.Exit(2)
+			}
+			fmt.Println("inlined:", strings.Join(q.Inlined, "; "))
+			p = q
+		}
 		for _, fn := range p.Funcs {
 			if strings.Contains(p.QName(fn), *dump) {
 				fn.WriteTo(os.Stdout)
@@ -105,6 +117,8 @@ func main() {
 	if *prop == "all" {
 		ids = rules.IDs()
 	}
+	loadRefStems(*verif)
+	allCtx := map[string]*core.Ctx{}
 	exit := 0
 	for _, id := range ids {
 		pr := rules.Get(id)
@@ -116,23 +130,101 @@ func main() {
 		if len(ids) == 1 {
 			t0 = start
 		}
-		c := core.NewCtx(p, id)
-		func() {
-			defer func() {
-				if r := recover(); r != nil {
-					c.Unk("internal", "checker-panic", "", fmt.Sprintf("checker panicked: %v", r))
-					if *verbose {
-						panic(r)
+		runAt := func(q *core.Prog) *core.Ctx {
+			c := core.NewCtx(q, id)
+			func() {
+				defer func() {
+					if r := recover(); r != nil {
+						c.Unk("internal", "checker-panic", "", fmt.Sprintf("checker panicked: %v", r))
+						if *verbose {
+							panic(r)
+						}
+					}
+				}()
+				pr.Run(c)
+			}()
+			return c
+		}
+		extra := map[string]interface{}{}
+		var c *core.Ctx
+		if *inl >= 0 {
+			q, err := progAt(p, *inl)
+			if *inlOnly != "" && *inl > 0 {
+				only := map[string]bool{}
+				for _, h := range p.Helpers(*inl) {
+					for _, w := range strings.Split(*inlOnly, ",") {
+						if strings.Contains(h, w) {
+							only[h] = true
+						}
 					}
 				}
-			}()
-			pr.Run(c)
-		}()
-		extra := map[string]interface{}{}
+				q, err = p.WithInlinedSet(*inl, only)
+				if err == nil {
+					fmt.Println("inlined:", strings.Join(q.Inlined, "; "))
+				}
+			}
+			if err != nil {
+				fmt.Fprintln(os.Stderr, "inline:", err)
+				os.Exit(2)
+			}
+			c = runAt(q)
+			extra["normal_form"] = normalForm(q)
+		} else {
+			c = runAt(p)
+			extra["normal_form"] = normalForm(p)
+			if len(c.Finish(kf).Violations) > 0 {
+				// a helper-extraction refactoring hides constructs from per-function rules: retry on the
+				// inlining normal forms (semantics-preserving); the first form on which every obligation is
+				// discharged decides. If none is, the report is the one for the program as written.
+				var tried []string
+				for lvl := 1; lvl <= core.MaxInlineLevel; lvl++ {
+					q, err := progAt(p, lvl)
+					if err != nil {
+						tried = append(tried, fmt.Sprintf("level %d: %v", lvl, err))
+						continue
+					}
+					if len(q.Inlined) == 0 || (lvl > 1 && sameInlined(q, prevAt(p, lvl-1))) {
+						tried = append(tried, fmt.Sprintf("level %d: nothing further to inline", lvl))
+						continue
+					}
+					c2 := runAt(q)
+					if len(c2.Finish(kf).Violations) == 0 {
+						if miss := missingStems(refStems[id], c2); len(miss) > 0 || !refStemsLoaded {
+							sort.Strings(miss)
+							miss = append(miss, "-")
+							tried = append(tried, fmt.Sprintf("level %d: discharged, but %d obligation kinds of the reference list are not examined in this form (e.g. %s): not accepted", lvl, len(miss)-1, miss[0]))
+							continue
+						}
+						fmt.Printf("%s: not discharged on the program as written; discharged on inlining normal form level %d (%d helper calls inlined)\n", id, lvl, len(q.Inlined))
+						c = c2
+						extra["normal_form"] = normalForm(q)
+						break
+					}
+					tried = append(tried, fmt.Sprintf("level %d: still not discharged", lvl))
+				}
+				if c.P == p {
+					if c2, q, note := searchNormalForm(p, c, kf, runAt); c2 != nil {
+						fmt.Printf("%s: not discharged on the program as written; discharged on the normal form with %d helper call(s) inlined: %s\n", id, len(q.Inlined), strings.Join(q.Inlined, "; "))
+						c = c2
+						extra["normal_form"] = normalForm(q)
+						tried = append(tried, note)
+					} else {
+						tried = append(tried, note)
+					}
+				}
+				extra["normal_forms_tried"] = tried
+				if *verbose || c.P == p {
+					for _, t := range tried {
+						fmt.Printf("  normal form %s\n", t)
+					}
+				}
+			}
+		}
 		if *tier == "thorough" {
 			dummy := &core.Outcome{}
-			extra["thorough"] = thorough(p, pr, c, *verif, *repo, dummy)
+			extra["thorough"] = thorough(c.P, pr, c, *verif, *repo, dummy)
 		}
+		allCtx[id] = c
 		out := c.Finish(kf)
 		fmt.Printf("%s %s: %d obligations, %d violated/undecided, %d known findings, repo=%s\n", id, pr.Title, len(c.Obs), len(out.Violations), len(out.Known), *repo)
 		fmt.Print(c.Summary())
@@ -170,7 +262,54 @@ func main() {
 			exit = 1
 		}
 	}
+	if *wstems {
+		if exit != 0 || *prop != "all" {
+			fmt.Fprintln(os.Stderr, "-write-stems needs -property all and a tree on which every property is discharged")
+			os.Exit(2)
+		}
+		if err := writeRefStems(*verif, allCtx); err != nil {
+			fmt.Fprintln(os.Stderr, err)
+			os.Exit(2)
+		}
+	}
 	os.Exit(exit)
+}
+
+var progs = map[int]*core.Prog{}
+
+func progAt(p *core.Prog, lvl int) (*core.Prog, error) {
+	if lvl == 0 {
+		return p, nil
+	}
+	if q, ok := progs[lvl]; ok {
+		if q == nil {
+			return nil, fmt.Errorf("normal form unavailable")
+		}
+		return q, nil
+	}
+	q, err := p.WithInlining(lvl)
+	if err != nil {
+		progs[lvl] = nil
+		return nil, err
+	}
+	progs[lvl] = q
+	return q, nil
+}
+
+func prevAt(p *core.Prog, lvl int) *core.Prog {
+	q, _ := progAt(p, lvl)
+	return q
+}
+
+func sameInlined(a, b *core.Prog) bool {
+	if a == nil || b == nil {
+		return false
+	}
+	return strings.Join(a.Inlined, "|") == strings.Join(b.Inlined, "|")
+}
+
+func normalForm(q *core.Prog) map[string]interface{} {
+	return map[string]interface{}{"inline_level": q.InlineLevel, "inlined_calls": q.Inlined}
 }
 
 func flagSet(name string) bool {
